@@ -14,7 +14,7 @@ DEFAULTS = dict(
     deferral=0.0, flags=0.0, blocking=0.0, hierarchy_events=0.0, kleene=0.0,
     scripts=False, outer_rows_on_sub=0.8, policy='default', serialize=False,
     subs_per_level=(1, 1), action_max=2, row_budget=18, visitable=False, terminate_only=False, puml_guards=False, nested_deferral=False,
-    pseudo_kinds=('explicit', 'fork', 'entry_pt', 'exit_pt'),
+    pseudo_kinds=('explicit', 'fork', 'entry_pt', 'exit_pt'), unique_rows=False,
 )
 
 PROFILES = {
@@ -22,9 +22,13 @@ PROFILES = {
     'core_flat': dict(depth=(1, 1)),
     'hier': dict(depth=(2, 3), regions=(1, 2)),
     'completion': dict(completion=0.6, state_internal=0.0, sm_internal=0.0, depth=(1, 2)),
+    'completion_defer': dict(completion=0.6, deferral=1.0, state_internal=0.0, sm_internal=0.0, depth=(1, 1), regions=(2, 3), row_budget=14),
+    'completion_sub': dict(completion=0.7, state_internal=0.0, sm_internal=0.0, depth=(2, 2), regions=(2, 3), row_budget=12, subs_per_level=(1, 2)),
     'history': dict(history=1.0, depth=(2, 2), row_budget=13, state_internal=0.0, sm_internal=0.0, regions=(1, 3)),
     'hist_explicit': dict(pseudo=1.0, history=1.0, pseudo_kinds=('explicit', 'fork', 'entry_pt'), row_budget=9, states_per_region=(2, 3),
                           depth=(2, 2), state_internal=0.0, sm_internal=0.0, regions=(2, 3)),
+    'pseudo_nc': dict(pseudo=1.0, history=0.5, pseudo_kinds=('explicit', 'fork', 'entry_pt'), row_budget=9, states_per_region=(2, 3),
+                      depth=(2, 2), state_internal=0.0, sm_internal=0.0, regions=(1, 3), unique_rows=True, guard_none=0.4),
     'pseudo': dict(pseudo=1.0, history=0.4, row_budget=10, states_per_region=(2, 2), depth=(2, 3), state_internal=0.0, sm_internal=0.0, regions=(1, 3)),
     'intro': dict(depth=(1, 3), regions=(1, 3), completion=0.3, history=0.5, pseudo=0.6, row_budget=10, states_per_region=(2, 3),
                   state_internal=0.2, sm_internal=0.0, scripts=True, visitable=True),
@@ -163,6 +167,8 @@ class Gen:
                 k = r.choice([0, 1, 1, 2]) if r.random() < p['outer_rows_on_sub'] else 0
             else:
                 k = r.choice(p['row_weights'])
+            if p['unique_rows']:
+                k = min(k, 1)       # no conflicting rows: back11 cannot compile const events through chained rows
             for _ in range(k):
                 if len(rows) >= p['row_budget']:
                     break
@@ -356,6 +362,11 @@ class Gen:
                     ev = r.choice(events)
                     if listed and r.random() < 0.6:
                         ev = r.choice(listed)       # explicit entries on a listed event: the other regions must follow the memory
+                    if self.p['unique_rows']:
+                        free = [(s_, e_) for s_ in others for e_ in events if not any(rw['src'] == s_ and rw['ev'] == e_ for rw in m['table'])]
+                        if not free:
+                            continue
+                        src, ev = r.choice(free)
                     if kind == 'explicit':
                         ri_ = r.randrange(len(sub['regions']))
                         cands = [x for x in sub['regions'][ri_] if sub['states'][x]['kind'] in ('simple', 'explicit')]
